@@ -19,7 +19,7 @@ import treedump
 from parts import kfclass, parsetie
 from checks import C03
 
-SPEC = dict(gen=['tables', 'actions', 'lexdata', 'unicodecat'], props=['CalmVerif.Props.C04'],
+SPEC = dict(gen=['tables', 'actions', 'lexdata', 'unicodecat'], props=['CalmVerif.Props.C04', 'CalmVerif.Props.C04parse'],
             drivers=['drv_parse', 'drv_spec'], audit='Audit/C04.lean')
 
 TERMS = ['\n', '\r', '\r\n', ' ', ' ']
